@@ -21,10 +21,16 @@ VAL = {
     'n1': 'Display Name', 'd1': 'All the big ones', 'd2': 'Another description',
 }
 VIEW_VAL = {'m1': 'total > 10', 'm2': 'category == "Food" and months >= 2', 'm3': 'cv < 0.5'}
-BADEXPR = {'match': ['contains("A"', 'amount >', 'lambda: 1', 'import os'], 'let': ['z = amount >', 'z = (1', 'a = amount >', 'c = (1', 'b = a +'],
+# (an expression is invalid when it is not Python syntax OR uses anything outside the documented language: an operator that is
+#  not part of it - // ** | & ^ << >> @ ~ unary + is / is not - is as invalid as a lambda)
+BADEXPR = {'match': ['contains("A"', 'amount >', 'lambda: 1', 'import os', 'contains("A") and amount // 10 >= 2', 'amount ** 2 > 4', 'amount is None',
+                     'category is not "x"', '~1 == 0', '(amount | 1) > 0', '+amount > 0', 'amount << 1 > 2', 'amount @ 2', '(1 ^ 2) > 0', '(3 & 1) == 1',
+                     'amount >> 1 > 0', 'amount in [1, 2]', 'amount in (1, 2)', 'description[1:2] == "A"'],
+           'let': ['z = amount >', 'z = (1', 'a = amount >', 'c = (1', 'b = a +', 'z = amount // 2', 'a = amount ** 2', 'b = a is None', 'c = ~1'],
            # (a name may be bound more than once in a rule: a malformed binding is malformed whatever is bound to its name later)
-           'field': ['q = (', 'q = 1 +', 'note = (', 'memo = 1 +'],
-           'tags': ['keep, {amount >}', '{contains(}'], 'filter': ['total >', 'months >= (', 'lambda: 1']}
+           'field': ['q = (', 'q = 1 +', 'note = (', 'memo = 1 +', 'q = amount // 2', 'note = +amount', 'memo = amount | 1'],
+           'tags': ['keep, {amount >}', '{contains(}', '{amount // 2}', 'keep, {amount ** 2}'],
+           'filter': ['total >', 'months >= (', 'lambda: 1', 'total ** 2 > 10000', 'months // 2 >= 1', 'category is "Food"', '+total > 1', '(months | 1) > 0']}
 MALFORMED = {'let': ['no equals here', '= 5', '1x = 5'], 'field': ['nofield', '= 1'], 'priority': ['high', '5.5', '']}
 
 
@@ -174,6 +180,54 @@ def classify(file, res):
         elif t in ('assign', 'transform') and seen_header:
             feats.append('%s-inside-rule' % t)
     return sorted(set(feats))
+
+
+def _rf_worker(seed, n, kind, bases):
+    import rulesfile_trace as RT
+    return RT.record_batch(seed, n, kind, bases)
+
+
+def trace_rulesfile(ck, nfiles):
+    """code -> spec: tally's own files, random rule files and random views files, edited and corrupted at the text level, read by
+    the real readers; the harness's own line tokeniser abstracts each text; Trace_RulesFile requires RulesFile!Result."""
+    import copy
+    import rulesfile_trace as RT
+    from props.totals_common import run_trace_sharded
+    bases = RT.base_texts()
+    tot = {}
+    for kind, cfg in (('merchants', 'Trace_RulesFile_m.cfg'), ('views', 'Trace_RulesFile_v.cfg')):
+        outs = par.pmap(_rf_worker, [ck.seed * 4099 + 7 * s + (1 if kind == 'views' else 0) for s in range(16)],
+                        extra=(max(1, nfiles // 32), kind, bases[kind]))
+        by_id, skipped = {}, 0
+        for rs, sk in outs:
+            skipped += sk
+            for r in rs:
+                by_id[r['id']] = r
+        recs = [{k: v for k, v in r.items() if not k.startswith('_')} for r in by_id.values()]
+        base = next((r for r in recs if not r['obs']['err'] and r['obs']['rules']), None)
+        if base is None:
+            raise core.Machinery('rules-file trace recorder (%s): no text was read successfully' % kind)
+        tam = copy.deepcopy(base)
+        tam['id'] = 'TAMPER'
+        tam['obs']['rules'] = tam['obs']['rules'][1:]                  # a section missing from the logged result
+        rej = run_trace_sharded(ck, 'Trace_RulesFile/' + kind, recs + [tam], 'Trace_RulesFile', cfg, shards=4)
+        if 'TAMPER' not in rej:
+            raise core.Machinery('Trace_RulesFile (%s) accepted a tampered record: the binding is vacuous' % kind)
+        rej.pop('TAMPER')
+        ck.trace(len(recs))
+        ck.case(n=len(recs))
+        nerr = sum(1 for r in recs if r['obs']['err'])
+        ck.case(('trace_rulesfile', kind, nerr), nontrivial=0 < nerr < len(recs), n=0)
+        tot[kind] = {'texts': len(recs), 'outside_statement_skipped': skipped, 'rejected_by_the_reader': nerr, 'base_files_from_the_tree': len(bases[kind]),
+                     'records_rejected': len(rej)}
+        for rid, clauses in sorted(rej.items()):
+            r = by_id[rid]
+            ck.violation({'site': 'parse_merchants' if kind == 'merchants' else 'parse_sections', 'clause': sorted(clauses), 'via': 'trace_rulesfile',
+                          'corruption': r['_corruption']},
+                         {'text': r['_text'], 'kind': kind, 'corruption': r['_corruption'], 'reader_message': r['_msg'], 'tokens': r['file'], 'observed': r['obs']},
+                         '%s reader on an edited %s file (%s): %s; the reader said %r' % (kind, 'corrupted' if r['_corruption'] else 'valid', r['_corruption'],
+                                                                                     sorted(clauses), r['_msg'] or 'no error'))
+    ck.extra['trace_rulesfile'] = tot
 
 
 def replay_states(states, seed, kind):
@@ -330,6 +384,7 @@ def run(ck):
                          {'views_text': views, 'settings_extra': extra_settings, 'stdout': up['out'][-400:], 'stderr': up['err'][-400:], 'rc': up['rc']},
                          '`tally up` on a corrupt views.rules (%s) does not report the error and its line' % name)
     ck.extra['corrupt_views_files_through_cli'] = len(vitems)
+    trace_rulesfile(ck, 6400 if ck.tier == 'quick' else 64000)
     ck.extra['rule'] = ('valid base files (merchants: 2, views: 2) and every single edit of them (insert any of 24 / 11 line tokens at any position, '
                         'delete, replace, swap neighbours; two edits for views and, in the thorough tier, merchants), each rendered three times '
                         '(plain, and twice with random indentation, trailing blanks, CRLF, key case); plus `tally up` / `tally diag` on corrupt '
